@@ -1746,6 +1746,15 @@ class Evaluator:
             if all(c is not None for c in cols):
                 return [tuple(x) for x in zip(*cols)]
             return None
+        if (isinstance(it, ast.Call) and isinstance(it.func, ast.Name) and it.func.id == "enumerate" and "enumerate" not in self.st.env
+                and 1 <= len(it.args) <= 2 and not it.keywords and "enumerate" not in self.ex.contract.handlers):
+            inner = self._concrete_items(it.args[0])
+            if inner is None:
+                return None
+            k0 = simp(self.eval(it.args[1])) if len(it.args) == 2 else 0
+            if not isinstance(k0, int):
+                return None
+            return [(k0 + i, x) for i, x in enumerate(inner)]
         if (isinstance(it, ast.Call) and isinstance(it.func, ast.Name) and it.func.id == "reversed" and "reversed" not in self.st.env
                 and len(it.args) == 1 and not it.keywords):
             inner = self._concrete_items(it.args[0])
